@@ -64,6 +64,8 @@ def setup():
     import typhon.geographical as gmod
     import typhon.constants as cst
     _T.update(gmod=gmod, GeoIndex=gmod.GeoIndex, R=float(cst.earth_radius) / 1000.0)
+    from sim.seams import typhon_state
+    _T["state"] = typhon_state()
 
 
 class NpProxy:
@@ -172,6 +174,7 @@ def _viol(sig, msg, extra=None):
 
 
 def run_one(tape, only=None):
+    _T["state"].restore()      # each run models a fresh interpreter
     res = new_result()
     w = gen_workload(tape)
     R = _T["R"]
